@@ -109,10 +109,19 @@ def build_lib(variant="san", shim=False):
     lib = os.path.join(od, "liblhasa.a")
     if os.path.exists(lib):
         return od
-    # prune older object dirs of the same variant
+    # prune object dirs of the same variant that have not been used for a long time (never the
+    # recent ones: several checks / mutant runs may be building concurrently)
     for d in glob.glob(os.path.join(BUILD, "obj", "%s%s-*" % (variant, "-shim" if shim else ""))):
-        shutil.rmtree(d, ignore_errors=True)
+        try:
+            if time.time() - os.path.getmtime(d) > 6 * 3600:
+                shutil.rmtree(d, ignore_errors=True)
+        except OSError:
+            pass
+    od_final = od
+    od = od_final + ".tmp%d_%d" % (os.getpid(), int(time.time() * 1000) % 100000)
+    shutil.rmtree(od, ignore_errors=True)
     ensure(od)
+    lib = os.path.join(od, "liblhasa.a")
     cfgdir = REPO
     if not os.path.exists(os.path.join(REPO, "config.h")):
         cfgdir = ensure(os.path.join(od, "cfg"))
@@ -156,7 +165,13 @@ def build_lib(variant="san", shim=False):
     if r.returncode != 0:
         raise HarnessError("link lha failed: " + r.stderr.decode()[:3000])
     os.rename(tmp, lib)
-    return od
+    # publish atomically: build in a private directory, then rename (a concurrent builder of the
+    # same tree may win the race; either result is the same)
+    try:
+        os.rename(od, od_final)
+    except OSError:
+        shutil.rmtree(od, ignore_errors=True)
+    return od_final
 
 
 WRAP = "-Wl,--wrap=malloc,--wrap=calloc,--wrap=realloc,--wrap=free,--wrap=strdup,--wrap=fopen,--wrap=fdopen,--wrap=fclose"
